@@ -5,8 +5,8 @@
   (connected / weakly / strongly connected components, node component, BFS, equal-size partitions) and on the
   model's; here they are proved sound: an accepted answer *is* the partition the property describes.  Then the
   breadth-first search of the model is proved correct for every graph, and the arithmetic behind
-  bfs_equal_size_partitions is proved.  The strong-components algorithm itself is not proved correct for all
-  graphs (see `C10_scc_full_statement`); its answers are decided by the proved checker on explored graphs.
+  bfs_equal_size_partitions is proved.  The strong-components algorithm itself is proved correct for all
+  graphs in Props/C10Model.lean (`C10_model_strong_components`).
 -/
 import GraphrsModel.ObsComp
 import Mathlib.Data.List.Perm.Subperm
@@ -526,9 +526,9 @@ theorem C10_bfs_correct (s : Store) (nb : Nat → List Nat) (x : Nat) (out : Lis
     simp only [Store.getAllNodeNames, Store.numNodes, List.length_map, List.length_nil]
     omega
 
-/-- What remains unproved for C10 (kept visible): for every directed store satisfying the coupling invariant and
-    every iteration order of the neighbour sets, the model of `strongly_connected_components` returns the partition of
-    the nodes by mutual reachability. -/
+/-- The full statement for `strongly_connected_components` as first written (kept visible). Its content is proved, under the
+    coupling invariant, as `C10_model_strong_components` (Props/C10Model.lean), phrased with `ReachR` instead of the Boolean
+    checker. -/
 def C10_scc_full_statement : Prop :=
   ∀ (s : Store), s.specs.directed = true →
     ∀ comps, s.stronglyConnectedComponents = .ok comps →
